@@ -321,7 +321,10 @@ impl Value {
         match self {
             Value::Null => serde_json::Value::Null,
             Value::Int(value) => serde_json::Value::Number(serde_json::Number::from(*value)),
-            Value::Float(Float(value)) => serde_json::Value::Number(serde_json::Number::from_f64(*value).unwrap()),
+            // JSON has no numbers for NaN and the infinities, these are written as text
+            Value::Float(Float(value)) => serde_json::Number::from_f64(*value)
+                .map(|number| serde_json::Value::Number(number))
+                .unwrap_or_else(|| serde_json::Value::String(value.to_string())),
             Value::Bool(value) => serde_json::Value::Bool(*value),
             Value::String(value) => serde_json::Value::String(value.clone()),
             Value::Array(_, value) => serde_json::Value::Array(value.iter().map(|x| x.json_value()).collect()),
